@@ -4,6 +4,7 @@ import OtelVerif.Lemmas.C08Dec
 import OtelVerif.Lemmas.C08Mig
 import OtelVerif.Lemmas.C08Txt
 import OtelVerif.Lemmas.C08Api
+import OtelVerif.Lemmas.C08Root
 import OtelVerif.Gen.OtlpSchema
 /-!
 # C08 — OTLP protobuf and JSON codecs are lossless, consistent and total
@@ -524,6 +525,78 @@ theorem C08_id_nonzero_encoded (S : Schema) (T : Txt) (f : Field) (n : Nat) (b :
       rw [this, enc_elem_leaf S f _ hty', hty]; simp [wireType, leaf, isScalar]
     · rw [toJ_slot_one]; simp only [hcard]
       rw [toJ_elem_leaf S T f _ hty', hty]; rfl
+
+
+/-! ## fixed point through the PUBLIC protobuf entry points (`decodeRoot = otlp.Migrate* ∘ Unmarshal`) -/
+
+set_option maxRecDepth 100000 in
+/-- wherever a message has fields 2 and 1000 they are different repeated slots of the same element type -/
+theorem C08_migrate_shape2 : migShape2Ok otlp = true := by decide +kernel
+
+/-- **Fixed point at root level, for EVERY byte string** — including inputs that carry the deprecated scope field 1000, on which
+`otlp.Migrate*` really moves data: if the public entry point of `root` decodes `b` to `w`, then re-encoding `w` gives bytes whose
+decoding *through the same entry point* (Unmarshal, then migration again) is the canonical observation `c = canon w`; `c` encodes
+to the same bytes and decodes to itself.  Composes `C08_decode_canonical`, `confD_migrate` (migration keeps the decoder shape),
+`migrate_canon_migrate` (stationarity through migration) and `C08_pb_roundtrip`. -/
+theorem C08_total_fixpoint_root (S : Schema) (D : List Val) (r : List Nat) (hwf : WF S D = true) (hr : reqRankOk S r = true)
+    (hsh : migShape2Ok S = true) (root : String) (m : Nat)
+    (hfirst : migratesPb root = true → ∀ f rest, S.slots m = .one f :: rest → f.card = .rep)
+    (b : Bytes) (w : Val) (hd : decodeRoot S D root m b = some w) (hlen : (encode S m w).length < 2 ^ 63) :
+    encode S m (canon S (.slots (S.slots m)) w) = encode S m w ∧
+    decodeRoot S D root m (encode S m w) = some (canon S (.slots (S.slots m)) w) ∧
+    decodeRoot S D root m (encode S m (canon S (.slots (S.slots m)) w)) = some (canon S (.slots (S.slots m)) w) := by
+  simp only [decodeRoot, Option.map_eq_some_iff] at hd
+  obtain ⟨v, hv, hw⟩ := hd
+  obtain ⟨hcv, _⟩ := C08_decode_canonical S D r hwf hr m b v hv
+  have he : encode S m (canon S (.slots (S.slots m)) w) = encode S m w := canon_enc S _ w
+  cases hmig : migratesPb root
+  · -- no migration on this root
+    simp only [hmig, Bool.false_eq_true, if_false] at hw
+    subst hw
+    have hc := canon_conf S _ v hcv
+    have hrt := C08_pb_roundtrip S D hwf m _ hc (by rw [he]; exact hlen)
+    refine ⟨he, ?_, ?_⟩ <;> simp only [decodeRoot, hmig, Bool.false_eq_true, if_false]
+    · rw [← he, hrt]; rfl
+    · rw [hrt]; rfl
+  · simp only [hmig, if_true] at hw
+    subst hw
+    have hf := hfirst hmig
+    have hcw := confD_migrate S hsh m v hf hcv
+    have hc := canon_conf S _ _ hcw
+    have hrt := C08_pb_roundtrip S D hwf m _ hc (by rw [he]; exact hlen)
+    have hst := migrate_canon_migrate S hsh m v hf hcv
+    refine ⟨he, ?_, ?_⟩ <;> simp only [decodeRoot, hmig, if_true]
+    · rw [← he, hrt]; simp only [Option.map_some]; rw [hst]
+    · rw [hrt]; simp only [Option.map_some]; rw [hst]
+
+/-- … for every public protobuf entry point of OTLP (4 payload unmarshalers, 4 export requests, 4 export responses). -/
+theorem C08_total_fixpoint_root_otlp (root : String) (m : Nat) (hroot : (root, m) ∈ otlp.roots) (b : Bytes) (w : Val)
+    (hd : decodeRoot otlp otlpD root m b = some w) (hlen : (encode otlp m w).length < 2 ^ 63) :
+    decodeRoot otlp otlpD root m (encode otlp m w) = some (canon otlp (.slots (otlp.slots m)) w) ∧
+    decodeRoot otlp otlpD root m (encode otlp m (canon otlp (.slots (otlp.slots m)) w))
+      = some (canon otlp (.slots (otlp.slots m)) w) := by
+  have hr := C08_api_roots
+  simp only [List.all_eq_true] at hr
+  have hrm := hr (root, m) hroot
+  simp only [Bool.or_eq_true, Bool.not_eq_true', Bool.or_eq_false_iff] at hrm
+  have hfirst : migratesPb root = true → ∀ f rest, otlp.slots m = .one f :: rest → f.card = .rep := by
+    intro hmig f rest hs
+    rcases hrm with ⟨h1, _⟩ | h3
+    · rw [h1] at hmig; cases hmig
+    · rw [hs] at h3; simpa using h3
+  exact (C08_total_fixpoint_root otlp otlpD _ C08_schema_wf C08_schema_rank C08_migrate_shape2 root m hfirst b w hd hlen).2
+
+
+/-! ## the readers, clause by clause (static tie) -/
+
+set_option maxRecDepth 100000 in
+/-- **Every `case` of every hand-written JSON reader assigns the field named by its labels, through the `Read*` helper the model
+assumes for that field's type**: regenerated per clause by the translator (labels, assigned Go field, helper calls) and decided
+against the schema — `label ↦ field`, `64-bit ↦ json.ReadInt64/ReadUint64`, `enum ↦ json.ReadEnumValue`, `bytes ↦ base64`,
+`id ↦ UnmarshalJSON`, `sint32 ↦ iter.ReadInt32`, repeated ↦ `ReadArrayCB`, message ↦ its reader.  A clause that writes another
+field (`droppedLinksCount` into `DroppedEventsCount`), reads an enum with `ReadInt32`, or bytes with `ReadStringAsSlice`
+(three of the five repaired defects) no longer type-checks here, before any input is generated. -/
+theorem C08_json_readers_typed : readersOk otlp Gen.OtlpSchema.readers = true := by decide +kernel
 
 /-! ## non-vacuity: a small schema using every slot discipline, a conforming value with extreme numerics -/
 def S0 : Schema := { msgs := [
